@@ -72,7 +72,7 @@ pub fn valid_indices(seed: u64, n: usize, round: u64, fix: Option<(usize, usize)
 
 pub fn run(ctx: &Ctx) {
     let w = bip39::words();
-    let rounds: u64 = if ctx.quick() { 1 } else { 3 };
+    let rounds: u64 = if ctx.quick() { 1 } else { 12 };
     // S1: every word in every position of every valid length
     let lens = bip39::VALID_COUNTS; let total_pos: usize = lens.iter().sum();
     ctx.sweep("S1-word-x-position", "5 lengths x every position x all 2048 words x filler rounds; last position = all 2048 checksum candidates", rounds * (total_pos as u64) * 2048, |i| {
@@ -119,8 +119,8 @@ pub fn run(ctx: &Ctx) {
     if ctx.thorough() {
         // S6: pairs of positions x boundary words for the shortest and longest length
         let bw = [0usize, 1, 1023, 1024, 2046, 2047];
-        let mut s6 = Vec::new(); for n in [12usize, 24] { for a in 0..n { for b in a + 1..n { for x in bw { for y in bw { s6.push((n, a, b, x, y)); } } } } }
-        ctx.sweep("S6-position-pairs", "all position pairs x 6x6 boundary words for 12 and 24 words (checksum recomputed unless the last word is one of the pair)", s6.len() as u64, |i| {
+        let mut s6 = Vec::new(); for n in [12usize, 15, 18, 21, 24] { for a in 0..n { for b in a + 1..n { for x in bw { for y in bw { s6.push((n, a, b, x, y)); } } } } }
+        ctx.sweep("S6-position-pairs", "all position pairs x 6x6 boundary words for every valid length (checksum recomputed unless the last word is one of the pair)", s6.len() as u64, |i| {
             let (n, a, b, x, y) = s6[i as usize]; let mut idx = valid_indices(ctx.seed, n, 0, None); idx[a] = x; idx[b] = y;
             if b != n - 1 { idx[n - 1] = bip39::complete_last(&idx[..n - 1], idx[n - 1]); }
             check_phrase(ctx, "S6-position-pairs", i, &bip39::indices_to_phrase(&idx));
